@@ -40,17 +40,22 @@ def atanSum (p : Int) (atanc c : Int) (x : Int) : M Int := do
   let a ← atanKernel p z
   chk64 (atanc + a)
 
-/-- `atan` (after the repair: argument clamped to 2^45 raw) -/
+/-- the clamp added by the repair: `if( x > x_limit ) x = x_limit`, `x_limit = 2^45` raw -/
+def atanClamp (x : Int) : Int := if x > 35184372088832 then 35184372088832 else x
+
+/-- the segment selection of `atan` for a non-negative (clamped) argument -/
+def atanMag (x : Int) : M Int :=
+  if x < 28672 then atanKernel 16 x
+  else if x < 45056 then atanSum 16 27028 28672 x
+  else if x < 77824 then atanSum 16 39472 45056 x
+  else if x < 159744 then atanSum 16 57076 77824 x
+  else atanSum 16 77429 159744 x
+
+/-- `atan` -/
 def atan (value : Int) : M Int := do
   let x ← if value < 0 then chk64 (-value) else pure value
   let sign : Bool := decide (value < 0)
-  let x := if x > 35184372088832 then 35184372088832 else x
-  let result ←
-    if x < 28672 then atanKernel 16 x
-    else if x < 45056 then atanSum 16 27028 28672 x
-    else if x < 77824 then atanSum 16 39472 45056 x
-    else if x < 159744 then atanSum 16 57076 77824 x
-    else atanSum 16 77429 159744 x
+  let result ← atanMag (atanClamp x)
   if !sign then pure result else chk64 (-result)
 
 /-- `atan2` -/
